@@ -232,13 +232,16 @@ func (v *vbint) UnmarshalBinary(data []byte) error {
 	}
 	var multiplier uint = 1
 	var value uint
-	for _, encodedByte := range data {
+	for i, encodedByte := range data {
 		value += uint(encodedByte) & uint(127) * multiplier
 		if multiplier > 128*128*128 {
 			return unmarshalErr(v, "", "size exceeded")
 		}
 		if encodedByte&128 == 0 {
 			break
+		}
+		if i == len(data)-1 {
+			return unmarshalErr(v, "", "missing data")
 		}
 		multiplier = multiplier * 128
 	}
